@@ -53,6 +53,9 @@ pub struct RealReport {
 
 #[derive(Clone, Debug, PartialEq, Eq, Serialize, Deserialize)]
 pub struct Snippet {
+    /// `environment:` of the test case's configuration
+    #[serde(default)]
+    pub env: BTreeMap<String, String>,
     pub code: String,
     /// "normal" | "exit:N" | "detached"
     pub end: String,
@@ -113,7 +116,7 @@ impl HG {
     }
 }
 
-const PROBE_VARS: &[&str] = &["VE1", "VE2", "VS1", "vs_lower", "VA1", "VH1", "VI1", INHERITED];
+const PROBE_VARS: &[&str] = &["VE1", "VE2", "VS1", "vs_lower", "VA1", "VH1", "VI1", INHERITED, "VS_CFG"];
 
 fn probe_all() -> String {
     let mut s = String::new();
@@ -121,6 +124,7 @@ fn probe_all() -> String {
         s.push_str(&format!("declare -p {v} 2>/dev/null || echo {v}:unset\n"));
     }
     s.push_str("printenv VE1 || echo VE1:not-in-env\n");
+    s.push_str("printenv VS_CFG || echo VS_CFG:not-in-env\n");
     s.push_str(&format!("printenv {INHERITED} || echo {INHERITED}:not-in-env\n"));
     s.push_str("declare -f f1 || echo f1:undefined\n");
     s.push_str("declare -f f_heredoc || echo f_heredoc:undefined\n");
@@ -140,8 +144,10 @@ fn gen_history(seed: u64, idx: usize, steer_around_known: bool) -> History {
     };
     let n = 2 + g.below(6) as usize;
     let mut snippets = vec![];
+    let mut cfg_touched = false;
     for k in 0..n {
-        let (tag, code): (String, String) = match g.below(30) {
+        let mut env: BTreeMap<String, String> = BTreeMap::new();
+        let (tag, code): (String, String) = match g.below(33) {
             0 => ("export-define".into(), format!("export VE1={}", g.value())),
             1 => ("export-modify".into(), "export VE1=\"${VE1:-none} more\"".into()),
             2 => ("export-unset".into(), "unset VE1".into()),
@@ -192,6 +198,21 @@ fn gen_history(seed: u64, idx: usize, steer_around_known: bool) -> History {
                     )
                 }
             }
+            // (a variable given by configuration that an earlier test case already owns is
+            // outside the property: only the first VS_CFG-related snippet may configure it)
+            29 if !cfg_touched => {
+                cfg_touched = true;
+                env.insert("VS_CFG".into(), format!("from-config-{}", k));
+                ("cfg-env-define".into(), "true".into())
+            }
+            30 => {
+                cfg_touched = true;
+                ("cfg-env-unset".into(), "unset VS_CFG".into())
+            }
+            31 => {
+                cfg_touched = true;
+                ("cfg-env-modify".into(), "VS_CFG=\"${VS_CFG:-none}+\"".into())
+            }
             _ => ("use".into(), "f1 arg 2>/dev/null; a1 2>/dev/null; echo \"${VS1:-} ${VE1:-} ${VA1[*]:-}\"".into()),
         };
         let end = match g.below(12) {
@@ -200,7 +221,7 @@ fn gen_history(seed: u64, idx: usize, steer_around_known: bool) -> History {
             2 if k + 1 < n => "detached".to_string(),
             _ => "normal".to_string(),
         };
-        snippets.push(Snippet { code, end, tag });
+        snippets.push(Snippet { env, code, end, tag });
     }
     History {
         real_history: true,
@@ -229,6 +250,7 @@ fn systematic_histories() -> Vec<History> {
     for (name, define, modify, unset) in classes {
         for ends in [["normal", "normal", "normal"], ["exit:3", "normal", "fail"], ["normal", "exit:0", "normal"]] {
             let mk = |code: &str, end: &str, tag: &str| Snippet {
+                env: BTreeMap::new(),
                 code: code.to_string(),
                 end: end.to_string(),
                 tag: format!("{}-{}", name, tag),
@@ -245,6 +267,7 @@ fn systematic_histories() -> Vec<History> {
                 snippets: vec![
                     mk(define, ends[0], "define"),
                     Snippet {
+                        env: BTreeMap::new(),
                         code: format!("{}; VS1=from-detached; alias a2='echo detached'; cd /", unset),
                         end: "detached".into(),
                         tag: format!("{}-detached", name),
@@ -254,6 +277,25 @@ fn systematic_histories() -> Vec<History> {
             });
         }
     }
+    // a variable given through a test case's `environment:` configuration
+    for ends in [["normal", "normal", "normal", "normal"], ["normal", "exit:0", "normal", "fail"]] {
+        let mk = |env: Option<&str>, code: &str, end: &str, tag: &str| Snippet {
+            env: env.map(|v| [("VS_CFG".to_string(), v.to_string())].into_iter().collect()).unwrap_or_default(),
+            code: code.to_string(),
+            end: end.to_string(),
+            tag: tag.to_string(),
+        };
+        out.push(History {
+            real_history: true,
+            id: format!("sys-cfg-env-{}", ends.join("_")),
+            snippets: vec![
+                mk(Some("from config"), "true", ends[0], "cfg-env-define"),
+                mk(None, "VS_CFG=\"$VS_CFG changed\"", ends[1], "cfg-env-modify"),
+                mk(None, "unset VS_CFG", ends[2], "cfg-env-unset"),
+                mk(None, "true", ends[3], "use"),
+            ],
+        });
+    }
     out
 }
 
@@ -261,7 +303,14 @@ fn systematic_histories() -> Vec<History> {
 
 fn snippet_source(s: &Snippet, for_reference: bool) -> String {
     // state change, then the probes; the probes' output is what gets compared
-    let mut code = s.code.clone();
+    let mut code = String::new();
+    if for_reference {
+        // in a single session the test case's `environment:` amounts to exporting it first
+        for (k, v) in &s.env {
+            code.push_str(&format!("export {}='{}'\n", k, v.replace('\'', "'\\''")));
+        }
+    }
+    code.push_str(&s.code);
     code.push('\n');
     code.push_str(&probe_all());
     match s.end.as_str() {
@@ -318,6 +367,9 @@ fn run_through_scrut(h: &History) -> Result<Trace, String> {
         .map(|(i, s)| {
             let mut config = TestCaseConfig::default_markdown();
             config.environment = env.clone();
+            for (k, v) in &s.env {
+                config.environment.insert(k.clone(), v.clone());
+            }
             if s.end == "detached" {
                 config.detached = Some(true);
             }
